@@ -54,10 +54,9 @@ func (m *SubackMessage) AddReturnCodes(ret []byte) error {
 		if c != QosAtMostOnce && c != QosAtLeastOnce && c != QosExactlyOnce && c != QosFailure {
 			return fmt.Errorf("suback/AddReturnCode: Invalid return code %d. Must be 0, 1, 2, 0x80", c)
 		}
-
-		m.returnCodes = append(m.returnCodes, c)
 	}
 
+	m.returnCodes = append(m.returnCodes, ret...)
 	m.dirty = true
 
 	return nil
